@@ -1722,6 +1722,10 @@ pub fn eval_ternary_equality(lhs: &Value, rhs: &Value) -> Option<bool> {
     Value::Context(ls) => match rhs {
       Value::Context(rs) => {
         if ls.keys().len() == rs.keys().len() {
+          // contexts with different keys are NOT EQUAL, whatever the values of the entries they share
+          if ls.deref().iter().any(|(key, _)| rs.get_entry(key).is_none()) {
+            return Some(false);
+          }
           for (key1, value1) in ls.deref() {
             if let Some(value2) = rs.get_entry(key1) {
               if let Some(equal) = eval_ternary_equality(value1, value2) {
